@@ -270,7 +270,7 @@ def check(facts, rep, tier, cfg):
                     "makes the caller submit the same buffer again, so the part already queued is delivered twice" % loc_str(t["loc"]))
         else:
             rep.ok("C02.R10", key, where, "no Pending return is reachable after the Push is queued")
-    rep.floor("C02.R10", "write entry points that queue a caller-owned buffer", k10, 2)
+    rep.floor("C02.R10", "write entry points that queue a caller-owned buffer", k10, 2 if "std" in crate.features else 1)
     rep.rule("C02.S7", "who-may: the functions that touch the critical resources behind this property are those of the reference tree (flow table, closed flag, per-stream / datagram / outbound queues, last-pong timestamp, client id maps, shared TLS identity)")
     import whomay
     whomay.check(facts, rep, "C02.S7", "C02")
